@@ -29,7 +29,7 @@
 //!
 //! Phase 4 (both tiers): the real harper-cli binary, every subcommand, under the EMPTY monitor configuration (it may
 //! write nothing at all); the two dictionary files `lint` reads vs the extracted C10Cli.cli_lint_reads (cases `K`);
-//! real harper-ls mode `stdio-userdir` (userDictPath `<dir>/..`: known finding FC10b, class userdict-names-directory).
+//! real harper-ls mode `stdio-userdir` (userDictPath `<dir>/..`: regression of FC10b, fixed by a91f3ee — nothing written).
 #[path = "../lsclient.rs"]
 mod lsclient;
 use hv::common::*;
@@ -1958,13 +1958,18 @@ fn real_cli(rep: &mut Report, args: &Args, cli: &str) {
     }
 }
 
+fn ud_dir(scratch: &str) -> String {
+    format!("{scratch}/ud")
+}
+
 fn real_binary(rep: &mut Report, _args: &Args) {
     let bin = build_real_binary(rep);
     real_tcp_busy(rep, &bin);
     // "stdio-empty": an editor that sends the string-typed path settings present but EMPTY (seed c10-4) and a relative
     // statsPath: the dictionaries must land in the default locations under $HOME, the statistics under the cwd
     real_cli(rep, _args, &format!("{}/debug/harper-cli", ls_target()));
-    // "stdio-userdir": a userDictPath that names a DIRECTORY by ending in `..` (config.rs accepts it): finding FC10b
+    // "stdio-userdir": a userDictPath that names a DIRECTORY by ending in `..` (config.rs accepts it; save_dict refuses it
+    // since a91f3ee): the regression of finding FC10b — nothing may be written for the user dictionary
     for mode in ["stdio", "stdio-empty", "stdio-userdir", "tcp"] {
         let scratch = format!("/tmp/w-c10-{}-{mode}", std::process::id());
         let log = format!("{scratch}.strace");
@@ -2087,22 +2092,18 @@ fn real_binary(rep: &mut Report, _args: &Args) {
                     rep.fail("listener-not-loopback-only", format!("real harper-ls (tcp): {}", j.line.chars().take(300).collect::<String>()), input(&j.line));
                 }
             } else if j.verdict != 0 {
-                // FC10b: with a userDictPath that names a directory, save_dict creates the directory, puts `.tmp` INSIDE
-                // it and tries to rename that onto the directory. Exactly these calls get the finding's own class.
-                let ud = format!("{scratch}/ud");
-                let fc10b = mode == "stdio-userdir"
-                    && match &j.ev {
-                        Ev::Open(true, p) => p == format!("{ud}/.tmp").as_bytes(),
-                        Ev::Rename(a, b) => a == format!("{ud}/.tmp").as_bytes() && b == ud.as_bytes(),
-                        Ev::Mkdir(p) => p == ud.as_bytes() || p == format!("{ud}/inner").as_bytes(),
-                        _ => false,
-                    };
-                let class = if fc10b { "userdict-names-directory" } else { verdict_class(j.verdict) };
+                // (FC10b — a userDictPath naming a directory made save_dict put `.tmp` inside it — is fixed in /repo by
+                // a91f3ee; the narrow class is gone: in mode stdio-userdir any such call is an ordinary stray-write again)
+                let class = verdict_class(j.verdict);
                 rep.fail(class, format!("real harper-ls ({mode}): {}", j.line.chars().take(300).collect::<String>()), input(&j.line));
             }
         }
         if mode == "stdio-userdir" {
-            // the same command against the extracted save-path model: correspondence case `U` (model: O<ud>/.tmp R<ud>/.tmp:<ud>)
+            // the same command against the extracted save-path model: correspondence case `U` (since a91f3ee: `-`, nothing
+            // written; before: O<ud>/.tmp R<ud>/.tmp:<ud>). The directory <ud> itself must not have been created either.
+            if Path::new(&ud_dir(&scratch)).exists() {
+                rep.fail("stray-file", format!("real harper-ls ({mode}) created the directory {}", ud_dir(&scratch)), input("directory created"));
+            }
             let ud = format!("{scratch}/ud");
             let mut parts: Vec<String> = vec![];
             for j in &judged {
@@ -2132,8 +2133,7 @@ fn real_binary(rep: &mut Report, _args: &Args) {
                     rep.fail("document-modified", format!("real harper-ls ({mode}) modified {f}"), input(&f));
                 }
             } else if !path_allowed(&cfgs["real"], f.as_bytes()) {
-                let class = if mode == "stdio-userdir" && f == format!("{scratch}/ud/.tmp") { "userdict-names-directory" } else { "stray-file" };
-                rep.fail(class, format!("real harper-ls ({mode}) left {f}"), input(&f));
+                rep.fail("stray-file", format!("real harper-ls ({mode}) left {f}"), input(&f));
             }
         }
         if std::env::var("C10_KEEP").is_err() {
